@@ -27,6 +27,7 @@ type c06Case struct {
 	Ops    []string   `json:"ops,omitempty"` // op/3 goals applied first
 	Number bool       `json:"number,omitempty"`
 	Via    string     `json:"via,omitempty"` // number_codes / number_chars
+	Build  string     `json:"build,omitempty"` // goals that build the term in variable T0 (representation family)
 }
 
 var c06Writers = map[string]string{
@@ -170,6 +171,113 @@ func (e *c06Env) roundTrip(t ref.Term, writer string) (text, exp, act string, ok
 		return text, exp, act, false
 	}
 	return text, exp, act, true
+}
+
+// roundTripBuilt is roundTrip for a term that goals (query text) leave in T0; want is its intended value.
+func (e *c06Env) roundTripBuilt(build string, want ref.Term, writer string) (text, exp, act string, ok bool) {
+	e.out.Reset()
+	w := strings.ReplaceAll(c06Writers[writer], "T", "T0")
+	built, err := e.capture(build+", "+w+" .", "T0")
+	if err != nil {
+		return "", "the term can be built and written", "error: " + err.Error(), false
+	}
+	exp = c06Canon(built)
+	if exp != c06Canon(want) {
+		return "", "built term " + c06Canon(want), exp, false
+	}
+	text = e.out.String()
+	e.in.buf.Reset()
+	e.in.buf.WriteString(text + " .\n")
+	back, err := e.capture("read_term(X, []) .", "X")
+	if err != nil {
+		return text, exp, "the written text is not accepted by the reader: " + err.Error(), false
+	}
+	if act = c06Canon(back); act != exp {
+		return text, exp, act, false
+	}
+	return text, exp, act, true
+}
+
+// (5) the same abstract list held in every internal representation (built through each construction
+// recipe), bare and inside every kind of context, through every writer
+func c06Representations(w *h.W, e *c06Env) {
+	ctxs := []struct {
+		goal string
+		mk   func(l ref.Term) ref.Term
+	}{
+		{"T0 = L", func(l ref.Term) ref.Term { return l }},
+		{"T0 = f(L)", func(l ref.Term) ref.Term { return ref.C("f", l) }},
+		{"T0 = [L, z]", func(l ref.Term) ref.Term { return ref.List(l, ref.Atom("z")) }},
+		{"T0 = [z|L]", func(l ref.Term) ref.Term { return ref.C(".", ref.Atom("z"), l) }},
+		{"T0 = L - L", func(l ref.Term) ref.Term { return ref.C("-", l, l) }},
+		{"T0 = - L", func(l ref.Term) ref.Term { return ref.C("-", l) }},
+		{"T0 = {L}", func(l ref.Term) ref.Term { return ref.C("{}", l) }},
+		{"T0 = (a :- L)", func(l ref.Term) ref.Term { return ref.C(":-", ref.Atom("a"), l) }},
+	}
+	elems := []T{A("a"), A("b"), I(97), A("B c"), A("[]"), I(-1)}
+	var lists [][]T
+	for n := 0; n <= w.Pick(3, 4); n++ {
+		seqs(n, len(elems), func(idx []int) bool {
+			l := make([]T, n)
+			for i, j := range idx {
+				l[i] = elems[j]
+			}
+			lists = append(lists, l)
+			return true
+		})
+	}
+	for _, l := range lists {
+		if !w.Mine() {
+			continue
+		}
+		if w.Expired() {
+			return
+		}
+		for _, r := range c02Recipes() {
+			goals := r.build(l, V("L"), 1)
+			if goals == nil {
+				continue
+			}
+			var gs []string
+			for _, g := range goals {
+				gs = append(gs, ref.Text(g))
+			}
+			for _, cx := range ctxs {
+				build := strings.Join(gs, ", ") + ", " + cx.goal
+				want := cx.mk(ref.List(l...))
+				for _, wr := range []string{"writeq", "write_canonical", "quoted-ignore"} {
+					c := &c06Case{DQ: "chars", Build: build}
+					w.Guard(c)
+					text, exp, act, ok := e.roundTripBuilt(build, want, wr)
+					if !ok {
+						e.renew()
+					}
+					w.Unguard()
+					w.Eval(1)
+					w.States(1)
+					w.Transitions(2)
+					w.Traces(1)
+					w.Nontrivial(build + wr)
+					w.Outcome("repr:" + wr + fmt.Sprint(ok))
+					if !ok {
+						c.Term = ref.Enc(want)
+						c.Writer = wr
+						w.Violation("roundtrip "+wr+": a list built by recipe "+r.name+": "+c06Kind(act), c, exp+"   (written as "+fmt.Sprintf("%q", text)+")", act, len(l))
+					}
+				}
+			}
+		}
+	}
+}
+
+func c06Kind(act string) string {
+	switch {
+	case strings.HasPrefix(act, "the written text is not accepted"):
+		return "text not accepted by the reader"
+	case strings.HasPrefix(act, "error"):
+		return "cannot be built/written"
+	}
+	return "reads back as a different term"
 }
 
 // ---- term universe -----------------------------------------------------------------------------------
@@ -508,6 +616,7 @@ func c06Work(w *h.W) {
 	// (4) numbers through number_codes/2 and number_chars/2: integer boundary grid and a float grid of
 	// every binade x mantissa patterns x sign, plus the neighbours of the powers of ten
 	c06Numbers(w, envs["codes"])
+	c06Representations(w, envs["chars"])
 }
 
 func c06Numbers(w *h.W, e *c06Env) {
@@ -623,6 +732,10 @@ func c06Replay(b []byte) (string, string, bool) {
 		}
 		return c06Canon(t), c06Canon(back), c06Canon(t) == c06Canon(back)
 	}
+	if c.Build != "" {
+		text, exp, act, ok := e.roundTripBuilt(c.Build, t, c.Writer)
+		return exp + " written as " + fmt.Sprintf("%q", text), act, ok
+	}
 	text, exp, act, ok := e.roundTrip(t, c.Writer)
 	return exp + " written as " + fmt.Sprintf("%q", text), act, ok
 }
@@ -630,7 +743,7 @@ func c06Replay(b []byte) (string, string, bool) {
 func init() {
 	h.Register(&h.Check{
 		ID: "C06",
-		Rule: "(1) every leaf of a 71-element set (atoms of every lexical class: solo, graphic, alphanumeric, quoted with escapes, empty, control characters, non-ASCII letters and symbols, names of operators, exponent-like names; integers incl. min/max; floats incl. denormal, max, -0.0; variables) and every depth-1 term that puts such a leaf into every operand position of every prefix and infix operator of the default table, f/1..3, lists, partial lists, {}/1, '{}'/2, '[]'/1, nested minus, under each double_quotes flag and each of writeq, write_canonical, write_term quoted, quoted+ignore_ops; (2) depth 2: every constructor around every depth-1 term over a reduced leaf set, in each operand position; (3) operator tables reached by op/3 on o1, o2 and '-' (7 specifiers x 3 priorities, singly and in pairs): all terms of depth <= 2 over {o1, o2, -, a, 1, -1} with functors o1, o2, - of arity 1 and 2; (3b) token adjacency: each of 16 operator names that can fuse with a neighbouring token (e1, e, x1, b1, o7, a, a non-ASCII letter, /*, *, -, a quote, 0, [], {}, |, E) x 7 specifiers x 2 priorities x 23 leaves of every token class (integers, floats with and without exponent, atoms of every class, a variable, compound, list, {}, negative numbers vs. -(1)) in every operand position, nested, under minus, as argument and list element; and one atom per Unicode general category alone and next to letters (1); (4) number_codes/number_chars there and back for the integer boundary grid and a float grid of every (8th) binade x 64 mantissa patterns x sign plus the neighbours of every power of ten. Distinct = (term, writer, flag).",
+		Rule: "(1) every leaf of a 71-element set (atoms of every lexical class: solo, graphic, alphanumeric, quoted with escapes, empty, control characters, non-ASCII letters and symbols, names of operators, exponent-like names; integers incl. min/max; floats incl. denormal, max, -0.0; variables) and every depth-1 term that puts such a leaf into every operand position of every prefix and infix operator of the default table, f/1..3, lists, partial lists, {}/1, '{}'/2, '[]'/1, nested minus, under each double_quotes flag and each of writeq, write_canonical, write_term quoted, quoted+ignore_ops; (2) depth 2: every constructor around every depth-1 term over a reduced leaf set, in each operand position; (3) operator tables reached by op/3 on o1, o2 and '-' (7 specifiers x 3 priorities, singly and in pairs): all terms of depth <= 2 over {o1, o2, -, a, 1, -1} with functors o1, o2, - of arity 1 and 2; (3b) token adjacency: each of 16 operator names that can fuse with a neighbouring token (e1, e, x1, b1, o7, a, a non-ASCII letter, /*, *, -, a quote, 0, [], {}, |, E) x 7 specifiers x 2 priorities x 23 leaves of every token class (integers, floats with and without exponent, atoms of every class, a variable, compound, list, {}, negative numbers vs. -(1)) in every operand position, nested, under minus, as argument and list element; and one atom per Unicode general category alone and next to letters (1); (4) number_codes/number_chars there and back for the integer boundary grid and a float grid of every (8th) binade x 64 mantissa patterns x sign plus the neighbours of every power of ten; (5) representations: every list of <= 3 (4) elements over 6 values built through each of the 13 construction recipes of C02 (bracket, bar, partial then bound, './2', atom_chars/atom_codes output, double-quoted literal, append/3 in three modes, findall/3, length/2 + unification, ...) bare and in 8 contexts, through three writers. Distinct = (term, writer, flag).",
 		Explanation: "state = a term built WITHOUT the reader (atom_codes/2 with placeholder code lists, =../2); transition = write with the real writer, then read the text + ' .' with read_term/2 under the same table and flags; the term read must equal the term written up to variable renaming, floats by bit pattern; structural capture on both sides",
 		Assumptions: []string{"'$VAR'(N) terms are excluded as the property states", "terms are built through atom_codes/2, =../2 and placeholders, which C15/C16 check separately"},
 		Work:        c06Work,
